@@ -334,8 +334,19 @@ func c12(c *Ctx) {
 	}
 	runCmd(dir, append(append([]string{}, env...), "MAGEFILE_HASHFAST=1"), mageBin, "sleep", "1", "true", "0") // warm the cache
 	const margin = 700                                                                                             // ms a process may exit late under load
-	for i := 0; i < c.N; i++ {
-		k := c12Gen(r, c.Tier)
+	// two fixed scenarios lead every run: the deadline strikes while the target is blocked in an external command that
+	// outlives it — through the compiled binary and through the mage front end (whose own exit must not wait for it)
+	fixed := []c12Case{
+		{d: 600, targets: []c12Target{{dur: 2500, sh: true}}, way: "mage"},
+		{d: 600, targets: []c12Target{{dur: 2500, sh: true}}, way: "static"},
+	}
+	for i := 0; i < c.N+len(fixed); i++ {
+		var k c12Case
+		if i < len(fixed) {
+			k = fixed[i]
+		} else {
+			k = c12Gen(r, c.Tier)
+		}
 		var tj []J
 		for _, t := range k.targets {
 			tj = append(tj, J{"dur": t.dur, "honours": t.honours, "status": t.status})
